@@ -1,0 +1,92 @@
+//go:build verif
+
+// Contracts for the verification machinery in /verif (comment-only; no declarations).
+
+package libp2pwebtransport
+
+// ---------------------------------------------------------------------------
+// C18: certificate rotation arithmetic (A-TIME: time.Time and time.Duration are integers, nanoseconds)
+
+//@ const V = 1209600000000000
+//@ const S = 3600000000000
+//@ const SEC = 1000000000
+
+//@ func (c *certConfig) Start
+//@ prop C18
+//@ trusted
+//@ pure
+
+//@ func (c *certConfig) End
+//@ prop C18
+//@ trusted
+//@ pure
+
+//@ func newCertConfig
+//@ prop C18
+//@ trusted
+//@ ensures result1 == nil ==> result0 != nil
+//@ ensures result1 == nil && fmod(start, SEC) == 0 && fmod(end, SEC) == 0 ==> result0.Start() == start && result0.End() == end
+
+//@ func getCurrentBucketStartTime
+//@ prop C18
+//@ requires 0 <= offset && offset < V && fmod(offset, 60*SEC) == 0
+//@ ensures now >= offset ==> result <= now && now < result + (V - 2*S)
+//@ ensures fmod(result, SEC) == 0
+//@ ensures fmod(result - offset, V - 2*S) == 0
+
+//@ func (m *certManager) rollConfig
+//@ prop C18
+//@ requires m.nextConfig != nil && fmod(m.nextConfig.End(), SEC) == 0
+//@ ensures result == nil ==> m.lastConfig == old(m.currentConfig) && m.currentConfig == old(m.nextConfig) && m.nextConfig != nil
+//@ ensures result == nil ==> m.nextConfig.Start() == m.currentConfig.End() - 2*S && m.nextConfig.End() == m.nextConfig.Start() + V
+//@ ensures m.nextConfig != nil && fmod(m.nextConfig.End(), SEC) == 0
+//@ modifies m.lastConfig, m.currentConfig, m.nextConfig, m.serializedCertHashes, m.addrComp, elems(m.serializedCertHashes)
+
+//@ func (m *certManager) init
+//@ prop C18
+//@ ensures result == nil && ret(Now, 0, 0) >= V + S ==> m.currentConfig != nil && m.nextConfig != nil &&
+//@         m.currentConfig.Start() + S <= ret(Now, 0, 0) && ret(Now, 0, 0) < m.currentConfig.End() - S &&
+//@         m.currentConfig.End() == m.currentConfig.Start() + V
+//@ ensures result == nil && ret(Now, 0, 0) >= V + S ==>
+//@         m.nextConfig.Start() == m.currentConfig.End() - 2*S && m.nextConfig.End() == m.nextConfig.Start() + V
+//@ ensures result == nil && ret(Now, 0, 0) >= V + S ==> fmod(m.currentConfig.Start(), SEC) == 0
+//@ modifies m.lastConfig, m.currentConfig, m.nextConfig, m.serializedCertHashes, m.addrComp, elems(m.serializedCertHashes)
+
+//@ func verifyRawCerts
+//@ prop C18
+//@ loop 0 invariant verified ==> (exists i int :: 0 <= i && i < len(certHashes) && certHashes[i].Code == multihash.SHA2_256 &&
+//@         bytes.Equal(certHashes[i].Digest, hash[:]))
+//@ ensures result == nil ==> len(rawCerts) >= 1
+//@ ensures result == nil ==> exists i int :: 0 <= i && i < len(certHashes) && certHashes[i].Code == multihash.SHA2_256 &&
+//@         bytes.Equal(certHashes[i].Digest, sha256.Sum256(rawCerts[len(rawCerts)-1])[:])
+//@ ensures result == nil ==> called(ParseCertificate, 0) && ret(ParseCertificate, 0, 1) == nil &&
+//@         ret(ParseCertificate, 0, 0).NotAfter - ret(ParseCertificate, 0, 0).NotBefore <= 14*24*3600*SEC &&
+//@         ret(ParseCertificate, 0, 0).NotBefore <= ret(Now, 0, 0) && ret(Now, 0, 0) <= ret(ParseCertificate, 0, 0).NotAfter
+//@ ensures result == nil ==> ret(ParseCertificate, 0, 0).SignatureAlgorithm != x509.SHA1WithRSA && ret(ParseCertificate, 0, 0).SignatureAlgorithm != x509.SHA256WithRSA &&
+//@         ret(ParseCertificate, 0, 0).SignatureAlgorithm != x509.SHA384WithRSA && ret(ParseCertificate, 0, 0).SignatureAlgorithm != x509.SHA512WithRSA &&
+//@         ret(ParseCertificate, 0, 0).SignatureAlgorithm != x509.MD2WithRSA && ret(ParseCertificate, 0, 0).SignatureAlgorithm != x509.MD5WithRSA
+
+//@ func (t *transport) upgrade
+//@ prop C18
+//@ ensures result1 == nil ==> verified
+//@ closure 0
+//@ guarantee old(verified) ==> verified
+//@ ensures verified ==> old(verified) || result == nil
+//@ ensures result == nil ==> ret(decodeCertHashesFromProtobuf, 0, 1) == nil
+//@ loop 0 invariant forall i int :: 0 <= i && i < idx0 ==> (exists j int :: 0 <= j && j < len(decodedCertHashes) &&
+//@         certHashes[i].Code == decodedCertHashes[j].Code && bytes.Equal(certHashes[i].Digest, decodedCertHashes[j].Digest))
+//@ loop 1 invariant found ==> (exists j int :: 0 <= j && j < len(decodedCertHashes) &&
+//@         sent.Code == decodedCertHashes[j].Code && bytes.Equal(sent.Digest, decodedCertHashes[j].Digest))
+//@ ensures result == nil ==> forall i int :: 0 <= i && i < len(certHashes) ==> (exists j int :: 0 <= j && j < len(decodedCertHashes) &&
+//@         certHashes[i].Code == decodedCertHashes[j].Code && bytes.Equal(certHashes[i].Digest, decodedCertHashes[j].Digest))
+
+//@ func (m *certManager) background
+//@ prop C18
+//@ requires m.currentConfig != nil && m.nextConfig != nil && fmod(m.nextConfig.End(), SEC) == 0
+//@ callsite Timer#0 requires arg1 == m.currentConfig.End() - S - ret(Now, 0, 0)
+//@ closure 0
+//@ requires m.nextConfig != nil && fmod(m.nextConfig.End(), SEC) == 0
+//@ loop 0 invariant m.nextConfig != nil && fmod(m.nextConfig.End(), SEC) == 0
+//@ callsite Reset#0 requires arg1 == m.currentConfig.End() - S - now
+//@ callsite rollConfig#0 requires called(Now, 0) && now == ret(Now, 0, 0)
+//@ modifies m.lastConfig, m.currentConfig, m.nextConfig, m.serializedCertHashes, m.addrComp, elems(m.serializedCertHashes)
